@@ -34,11 +34,12 @@ TrSetup ==
   /\ v1' = [ex |-> TRUE, chunks |-> Line.chunks, name |-> Line.name, bad |-> {Line.bad[i] : i \in DOMAIN Line.bad}]
   /\ v2' = IF Line.stale = "" THEN NoV2
            ELSE [ex |-> TRUE, recs |-> MapOfRecs(Line.stale_recs), name |-> Line.name, bad |-> Line.stale = "torn"]
-  /\ orig' = v1' /\ phase' = "legacy" /\ cfg' = [verify |-> FALSE, deleteOld |-> FALSE]
+  /\ orig' = v1' /\ phase' = "legacy" /\ cfg' = [verify |-> FALSE, deleteOld |-> FALSE, rfault |-> {}]
   /\ loaded' = [k \in Keys |-> Absent] /\ result' = "none" /\ failedIn' = "" /\ ops' = 0 /\ last' = "Init"
   /\ l' = l + 1 /\ mode' = "run"
 
-TrStart == Is("start") /\ Step(Start([verify |-> Line.verify, deleteOld |-> Line.delete_old]))
+TrStart == Is("start") /\ Step(Start([verify |-> Line.verify, deleteOld |-> Line.delete_old,
+                                          rfault |-> {Line.rfault[i] : i \in DOMAIN Line.rfault}]))
 \* the migrator has read the folder: the number of records it found is bound to the spec's
 \* (for a folder without records the migrator announces "loaded" with 0 entries and then "empty")
 TrLoaded == Is("loaded") /\ Step(IF Line.n = 0 THEN phase = "loading" /\ IsEmpty(LoadV1(v1)) /\ UNCHANGED vars
@@ -72,7 +73,7 @@ TrDone == Is("done") /\ mode = "run" /\ PrintT(ToJson([ok |-> Line.id])) /\ l' =
 NoGiveUp == "TRACE_NOGIVEUP" \in DOMAIN IOEnv /\ IOEnv.TRACE_NOGIVEUP = "1"
 GiveUp == ~NoGiveUp /\ mode = "run" /\ l <= Len(Trace) /\ Line.ev # "setup" /\ mode' = "skip" /\ l' = l
           /\ v1' = [ex |-> TRUE, chunks |-> <<>>, name |-> 1, bad |-> {}] /\ v2' = NoV2 /\ orig' = v1' /\ phase' = "legacy"
-          /\ cfg' = [verify |-> FALSE, deleteOld |-> FALSE] /\ loaded' = [k \in Keys |-> Absent]
+          /\ cfg' = [verify |-> FALSE, deleteOld |-> FALSE, rfault |-> {}] /\ loaded' = [k \in Keys |-> Absent]
           /\ result' = "none" /\ failedIn' = "" /\ ops' = 0 /\ last' = "Init"
 SkipLine == mode = "skip" /\ l <= Len(Trace) /\ Line.ev # "setup" /\ l' = l + 1 /\ UNCHANGED <<vars, mode>>
 
